@@ -27,3 +27,9 @@ check("C02",
       text="Input-space enumeration: each of the 45 mnemonics is parsed from text and its Run/MemoryRead/MemoryWrite/declared register sets are compared with an independent uint32-arithmetic RV32IM table for ALL pairs of a boundary lattice (33 values quick, ~300 thorough), all register shapes incl. zero and rd==rs / rs1==rs2 aliases, 14 immediates, all 256 bytes for lb, all 65536 half-words for lh, 6^4 words for lw, 3 pcs for link instructions, with poison flipped in unread registers (dynamic non-interference) and a check that Run changes no register behind its Execution result.",
       note="Exhaustive over the lattice, not over all 2^64 operand pairs (stated in the evidence). The table is the trusted specification. div/rem by zero are owned by C07.",
       ref="DESIGN.md §2 C02")
+
+check("C11",
+      technique="exhaustive enumeration of all token strings up to length 6/7 plus all single-edit mutants and metamorphic variants, against an independent line classifier",
+      text="Input-space enumeration: every string of <= 6 (quick, 67M strings) / <= 7 (thorough, 1.3G) tokens of a 20-token alphabet (mnemonics, registers, separators, parentheses, decimal and overflowing numbers, colon, hash, newline, tab) and every single-edit mutant / metamorphic variant of 11 well-formed programs is parsed by the rebuilt risc.Parse; no panic is tolerated; for accepted text the instruction count and label map are compared with an independent line classifier and every readable instruction line must decode to the same instruction as its canonical rendering; variants (blank/comment lines, indentation, trailing blanks/comments, mnemonic case) must parse to a result equal to the base program's.",
+      note="Strings are over a token alphabet, not arbitrary bytes; the label-line definition (no space, trailing colon) is part of the oracle; meaning of canonical renderings is delegated to C02.",
+      ref="DESIGN.md §2 C11")
